@@ -98,6 +98,17 @@ pub struct Scn {
     /// records (tid, n) whose encoder fails part-way (profile C05-encfail)
     #[serde(default)]
     pub enc_fail: Vec<(u16, u16)>,
+    /// build the appender through the configuration deserializers
+    /// (`kind: rolling_file` with one-shot custom trigger / roller / encoder kinds)
+    #[serde(default)]
+    pub via_config: bool,
+    /// (via_config, append mode) leave the `append:` key out: it defaults to true
+    #[serde(default)]
+    pub omit_append_key: bool,
+    /// records (tid, n) for which the encoder writes nothing at all (an
+    /// encoder is free to produce zero bytes for a record)
+    #[serde(default)]
+    pub silent: Vec<(u16, u16)>,
     pub sched_seed: u64,
     pub policy: kernel::Policy,
 }
@@ -145,6 +156,7 @@ struct Shared {
     /// byte-exact model checks are off (an archive on disk cannot be represented)
     lenient: Mutex<bool>,
     enc_fail: Vec<(u16, u16)>,
+    silent: Vec<(u16, u16)>,
     /// a truncate-mode (re)open is under way: the active chunk may already be gone
     truncating: Mutex<bool>,
     /// set when a fault made the byte model unreliable; cleared by resync
@@ -230,6 +242,16 @@ impl Encode for ProbeEncoder {
         let text = record.args().to_string();
         let cur = CUR.with(|c| c.get());
         if let Some(id) = cur {
+            if self.sh.silent.contains(&(id.tid, id.n)) {
+                // a zero-byte record: nothing to find in any file, but the policy is consulted as usual
+                let mut m = self.sh.model.lock().unwrap();
+                m.pending = Some((id, vec![]));
+                if let Some(f) = self.sh.inflight.lock().unwrap().get_mut(&id) {
+                    f.encoded = true;
+                }
+                self.sh.sink.probe("zero_byte_records", 1);
+                return Ok(());
+            }
             let mut m = self.sh.model.lock().unwrap();
             if let Some((other, _)) = &m.pending {
                 if !*self.sh.dirty.lock().unwrap() {
@@ -506,7 +528,7 @@ pub fn gen_roller(rng: &mut Rng, tier: Tier, allow_special: bool) -> RollerSpec 
     }
     let base = *rng.pick(&[0u32, 0, 1, 1, 3, 7]);
     let count = if tier == Tier::Thorough && rng.chance(1, 8) { rng.range(6, 8) as u32 } else { rng.weighted(&[1, 3, 4, 3, 2, 1]) as u32 };
-    let mut kinds = vec![PatKind::Name, PatKind::Name, PatKind::Dir, PatKind::Repeated, PatKind::Env];
+    let mut kinds = vec![PatKind::Name, PatKind::Name, PatKind::Dir, PatKind::Repeated, PatKind::Env, PatKind::EnvSlash];
     if allow_special {
         kinds.push(PatKind::SecondMount);
         kinds.push(PatKind::DirSplit);
@@ -649,6 +671,7 @@ pub fn generate(rng: &mut Rng, tier: Tier, profile: &str) -> Scn {
     let nwork = rng.weighted(&[5, 3, 2]) + 1;
     let mut tid_next = 0u16;
     let mut fire = vec![];
+    let mut silent: Vec<(u16, u16)> = vec![];
     // approximate size model to aim records at the limit (exact for one thread)
     let limit = if let TriggerSpec::Size { limit } = &trigger { Some(*limit) } else { None };
     let mut cur: u64 = if append { pre_active.as_ref().map(|l| hist_bytes(0, l).len() as u64).unwrap_or(0) } else { 0 };
@@ -699,6 +722,9 @@ pub fn generate(rng: &mut Rng, tier: Tier, profile: &str) -> Scn {
                     if rng.chance(1, 3) {
                         fire.push(RecId { tid, n });
                     }
+                }
+                if rng.chance(1, 12) && (profile == "C06" || profile == "C05") {
+                    silent.push((tid, n));
                 }
                 ops.push(Op::Append { n, len });
                 n += 1;
@@ -763,6 +789,9 @@ pub fn generate(rng: &mut Rng, tier: Tier, profile: &str) -> Scn {
         crash: None,
         liveness: profile == "C08-obst",
         enc_fail: vec![],
+        via_config: rng.chance(1, 4),
+        omit_append_key: rng.chance(1, 2),
+        silent,
         sched_seed: rng.next_u64(),
         policy: common::gen_policy(rng),
     }
@@ -791,10 +820,10 @@ fn gen_advance(rng: &mut Rng, trigger: &TriggerSpec) -> Op {
 // ---------------------------------------------------------------- executor
 
 struct Live {
-    appender: Option<Arc<RollingFileAppender>>,
+    appender: Option<Arc<Box<dyn Append>>>,
 }
 
-fn build_appender(scn: &Scn, sh: &Arc<Shared>, append: bool) -> anyhow::Result<RollingFileAppender> {
+fn build_appender(scn: &Scn, sh: &Arc<Shared>, append: bool) -> anyhow::Result<Box<dyn Append>> {
     let inner = match &scn.trigger {
         TriggerSpec::Size { limit } => RealTrigger::Size(SizeTrigger::new(*limit)),
         TriggerSpec::OnStartUp { min_size } => RealTrigger::OnStartUp(OnStartUpTrigger::new(*min_size)),
@@ -814,19 +843,73 @@ fn build_appender(scn: &Scn, sh: &Arc<Shared>, append: bool) -> anyhow::Result<R
         let at_start = if append { sh.model.lock().unwrap().active.len() as u64 } else { 0 };
         *sh.life.lock().unwrap() = Lifetime { consults: 0, acks: 0, size_at_start: at_start };
     }
-    let trigger = ProbeTrigger { inner, sh: sh.clone() };
-    let roller = ProbeRoller { inner: rmodel::build_roller(&scn.roller, &sh.names)?, sh: sh.clone() };
-    let policy = CompoundPolicy::new(Box::new(trigger), Box::new(roller));
+    let trigger: Box<dyn Trigger> = Box::new(ProbeTrigger { inner, sh: sh.clone() });
+    let roller: Box<dyn Roll> = Box::new(ProbeRoller { inner: rmodel::build_roller(&scn.roller, &sh.names)?, sh: sh.clone() });
+    let policy_parts: PolicyParts = (std::cell::Cell::new(Some(trigger)), roller);
     let inner_enc: Box<dyn Encode> = match &scn.encoder {
         EncKind::Chunk { seed } if !scn.enc_fail.is_empty() => Box::new(common::ChunkEncoder { seed: *seed, fail: scn.enc_fail.clone() }),
         e => common::make_encoder(e),
     };
     let enc = ProbeEncoder { inner: inner_enc, sh: sh.clone() };
+    if scn.via_config {
+        // through the configuration machinery: the rolling_file appender and compound policy
+        // deserializers assemble the same probes (handed out by one-shot custom kinds)
+        return build_via_config(scn, sh, append, policy_parts.0.take().unwrap(), policy_parts.1, Box::new(enc));
+    }
+    let policy = CompoundPolicy::new(policy_parts.0.take().unwrap(), policy_parts.1);
     let a = RollingFileAppender::builder().append(append).encoder(Box::new(enc)).build(&sh.names.active, Box::new(policy))?;
-    Ok(a)
+    Ok(Box::new(a))
 }
 
-fn do_append(sh: &Arc<Shared>, appender: &RollingFileAppender, id: RecId, len: u32, others_inflight: &Mutex<u32>) {
+type PolicyParts = (std::cell::Cell<Option<Box<dyn Trigger>>>, Box<dyn Roll>);
+
+#[derive(serde::Deserialize)]
+#[serde(deny_unknown_fields)]
+struct NoConfig {}
+
+struct Slot<T: ?Sized>(Mutex<Option<Box<T>>>);
+
+impl log4rs::config::Deserialize for Slot<dyn Trigger> {
+    type Trait = dyn Trigger;
+    type Config = NoConfig;
+    fn deserialize(&self, _: NoConfig, _: &log4rs::config::Deserializers) -> anyhow::Result<Box<dyn Trigger>> {
+        self.0.lock().unwrap().take().ok_or_else(|| anyhow::anyhow!("trigger slot already used"))
+    }
+}
+
+impl log4rs::config::Deserialize for Slot<dyn Roll> {
+    type Trait = dyn Roll;
+    type Config = NoConfig;
+    fn deserialize(&self, _: NoConfig, _: &log4rs::config::Deserializers) -> anyhow::Result<Box<dyn Roll>> {
+        self.0.lock().unwrap().take().ok_or_else(|| anyhow::anyhow!("roller slot already used"))
+    }
+}
+
+impl log4rs::config::Deserialize for Slot<dyn Encode> {
+    type Trait = dyn Encode;
+    type Config = NoConfig;
+    fn deserialize(&self, _: NoConfig, _: &log4rs::config::Deserializers) -> anyhow::Result<Box<dyn Encode>> {
+        self.0.lock().unwrap().take().ok_or_else(|| anyhow::anyhow!("encoder slot already used"))
+    }
+}
+
+fn build_via_config(scn: &Scn, sh: &Arc<Shared>, append: bool, trigger: Box<dyn Trigger>, roller: Box<dyn Roll>, enc: Box<dyn Encode>) -> anyhow::Result<Box<dyn Append>> {
+    let mut d = log4rs::config::Deserializers::default();
+    d.insert("ptrigger", Slot::<dyn Trigger>(Mutex::new(Some(trigger))));
+    d.insert("proller", Slot::<dyn Roll>(Mutex::new(Some(roller))));
+    d.insert("pencoder", Slot::<dyn Encode>(Mutex::new(Some(enc))));
+    let mut yaml = format!("path: \"{}\"\n", sh.names.active.display());
+    // `append` defaults to true: the key is left out when the scenario says so
+    if !(append && scn.omit_append_key) {
+        yaml.push_str(&format!("append: {}\n", append));
+    }
+    yaml.push_str("encoder:\n  kind: pencoder\npolicy:\n  kind: compound\n  trigger:\n    kind: ptrigger\n  roller:\n    kind: proller\n");
+    let value: serde_value::Value = serde_yaml::from_str(&yaml)?;
+    sh.sink.probe("appenders_built_through_config", 1);
+    d.deserialize::<dyn Append>("rolling_file", value)
+}
+
+fn do_append(sh: &Arc<Shared>, appender: &dyn Append, id: RecId, len: u32, others_inflight: &Mutex<u32>) {
     let text = frame::encode(id, len as usize);
     CUR.with(|c| c.set(Some(id)));
     let size_model_before;
@@ -1106,6 +1189,7 @@ pub fn execute(scn: &Scn, opts: &ExecOpts) -> Outcome {
         image_state: Mutex::new(None),
         lenient: Mutex::new(false),
         enc_fail: scn.enc_fail.clone(),
+        silent: scn.silent.clone(),
         truncating: Mutex::new(false),
         dirty: Mutex::new(false),
         c16_boundary_fires: Mutex::new(0),
@@ -1167,7 +1251,7 @@ pub fn execute(scn: &Scn, opts: &ExecOpts) -> Outcome {
                             Ok(newer) => {
                                 // … the old one still writes a record …
                                 let zero = Mutex::new(0u32);
-                                do_append(&sh, &old, RecId { tid: overlap_tid, n: 0 }, 20, &zero);
+                                do_append(&sh, &**old, RecId { tid: overlap_tid, n: 0 }, 20, &zero);
                                 drop(old);
                                 sh.sink.probe("overlapping_restarts", 1);
                                 // … then only the new one is used
@@ -1253,7 +1337,7 @@ pub fn execute(scn: &Scn, opts: &ExecOpts) -> Outcome {
                         let p = sh.names.arch(base + off);
                         // patterns with the index in a directory: sometimes a *file* where that directory is needed
                         let parent = p.parent().map(|x| x.to_path_buf());
-                        let dir_pattern = matches!(roller, RollerSpec::Fixed { pat: PatKind::Dir | PatKind::Repeated | PatKind::DirSplit, .. });
+                        let dir_pattern = matches!(roller, RollerSpec::Fixed { pat: PatKind::Dir | PatKind::Repeated | PatKind::DirSplit | PatKind::EnvSlash, .. });
                         if put && dir_pattern && off % 3 == 1 && parent.as_ref().map(|x| fs::symlink_metadata(x).is_err()).unwrap_or(false) {
                             // the slot directory is a link to a volume that is unavailable right now
                             let gone = sh.names.root.with_extension("vol").join(off.to_string());
@@ -1307,7 +1391,7 @@ pub fn execute(scn: &Scn, opts: &ExecOpts) -> Outcome {
                                         if *inflight_count.lock().unwrap() > 0 {
                                             *ov.lock().unwrap() = true;
                                         }
-                                        do_append(&sh, &a, RecId { tid, n }, len, &inflight_count);
+                                        do_append(&sh, &**a, RecId { tid, n }, len, &inflight_count);
                                     }
                                 }
                                 Op::Advance { ns } => {
@@ -1388,6 +1472,7 @@ pub fn execute(scn: &Scn, opts: &ExecOpts) -> Outcome {
             image_state: Mutex::new(None),
             lenient: Mutex::new(!exact),
             enc_fail: vec![],
+            silent: vec![],
             truncating: Mutex::new(false),
             dirty: Mutex::new(false),
             c16_boundary_fires: Mutex::new(0),
@@ -1502,7 +1587,7 @@ fn liveness_epilogue(k: &Arc<kernel::Kernel>, scn: &Scn, sh: &Arc<Shared>, live:
             }
         }
         let mode = *sh.append_mode.lock().unwrap();
-        let ensure = |sh: &Arc<Shared>| -> Option<Arc<RollingFileAppender>> {
+        let ensure = |sh: &Arc<Shared>| -> Option<Arc<Box<dyn Append>>> {
             if let Some(a) = live.lock().unwrap().appender.clone() {
                 return Some(a);
             }
@@ -1555,7 +1640,7 @@ fn liveness_epilogue(k: &Arc<kernel::Kernel>, scn: &Scn, sh: &Arc<Shared>, live:
                 None => return,
             };
             let before = sh.acked.lock().unwrap().len();
-            do_append(&sh, &a, id, len, &zero);
+            do_append(&sh, &**a, id, len, &zero);
             if sh.sink.any() {
                 return;
             }
@@ -1692,6 +1777,11 @@ pub fn shrink(s: &Scn) -> Vec<Scn> {
     for i in 0..s.enc_fail.len() {
         let mut c = s.clone();
         c.enc_fail.remove(i);
+        out.push(c);
+    }
+    for i in 0..s.silent.len() {
+        let mut c = s.clone();
+        c.silent.remove(i);
         out.push(c);
     }
     for (pi, p) in s.phases.iter().enumerate() {
